@@ -317,7 +317,10 @@ class Array:
         """Insert a new element into the Array at position i.
 
         """
-        i = min(i, len(self))  # Inserting beyond len of array inserts at the end (copying standard behaviour)
+        # Positions beyond either end insert at that end, and negative positions count from the end (copying list behaviour).
+        if i < 0:
+            i = max(i + len(self), 0)
+        i = min(i, len(self))
         self.data.insert(self._create_element(x), i * self._dtype.bitlength)
 
     def pop(self, i: int = -1) -> ElementType:
@@ -351,7 +354,7 @@ class Array:
         For floating point types using a value of float('nan') will count the number of elements that are NaN.
 
         """
-        if math.isnan(value):
+        if isinstance(value, float) and math.isnan(value):
             return sum(math.isnan(i) for i in self)
         else:
             return sum(i == value for i in self)
